@@ -207,7 +207,9 @@ struct StepEvents {
 }
 
 impl Tracker {
-	fn replay(&mut self, tree: &Tree, mode: SrcMode, who: &str, evs: &[Ev]) -> Result<StepEvents, Failure> {
+	fn replay(
+		&mut self, tree: &Tree, mode: SrcMode, who: &str, evs: &[Ev], bad: &mut Option<BlockHash>,
+	) -> Result<StepEvents, Failure> {
 		let mut out = StepEvents { disc: Vec::new(), conn: Vec::new() };
 		for ev in evs {
 			match ev {
@@ -251,6 +253,7 @@ impl Tracker {
 					let n = match tree.node_of(hash) {
 						Some(n) => n,
 						None => {
+							*bad = Some(*hash);
 							return fail(
 								"invalid-block-connected",
 								format!("{}: connected block {} (height {}) is not a valid block of the source's tree", who, hash, height),
@@ -325,6 +328,9 @@ pub struct RunOut {
 	pub failure: Option<Failure>,
 	/// The failing oracle fired while judging a `synchronize_listeners` step.
 	pub failure_in_init: bool,
+	/// Hash of the invalid block that reached a listener, and the fault class that fabricated it.
+	pub bad_hash: Option<BlockHash>,
+	pub culprit: Option<FaultClass>,
 	pub log: Vec<Req>,
 	pub fired: Vec<(Fault, u32)>,
 	pub refused: Vec<FaultClass>,
@@ -457,7 +463,7 @@ impl<'a> Ctx<'a> {
 			));
 		}
 		let who = "listener";
-		let se = tr.replay(tree, self.scn.mode, who, &evs)?;
+		let se = tr.replay(tree, self.scn.mode, who, &evs, &mut self.out.bad_hash)?;
 		let pos = tr.pos;
 		self.state(best, &[pos], Some(&tr.cache));
 
@@ -613,7 +619,7 @@ impl<'a> Ctx<'a> {
 		}
 		for (i, evs) in all_evs.iter().enumerate() {
 			let who = format!("listener{}", i);
-			step_evs.push(trs[i].replay(tree, scn.mode, &who, evs)?);
+			step_evs.push(trs[i].replay(tree, scn.mode, &who, evs, &mut self.out.bad_hash)?);
 		}
 		let pos: Vec<usize> = trs.iter().map(|t| t.pos).collect();
 		self.state(best, &pos, None);
@@ -737,6 +743,8 @@ pub fn execute(scn: &Scenario, tree: &Arc<Tree>, verbose: bool) -> RunOut {
 	let out = RunOut {
 		failure: None,
 		failure_in_init: false,
+		bad_hash: None,
+		culprit: None,
 		log: Vec::new(),
 		fired: Vec::new(),
 		refused: Vec::new(),
@@ -755,6 +763,9 @@ pub fn execute(scn: &Scenario, tree: &Arc<Tree>, verbose: bool) -> RunOut {
 	let mut out = cx.out;
 	if let Err(f) = r {
 		out.failure = Some(f);
+	}
+	if let Some(h) = out.bad_hash {
+		out.culprit = src.fabricated_by(&h);
 	}
 	out.log = src.log();
 	out.fired = src.fired();
